@@ -222,6 +222,28 @@ def _get_env(opts_items):
     return e
 
 
+_OVERLAYS = {}
+_BASE = []
+
+
+def _get_overlay(opts_items):
+    """The same configuration reached as an overlay of an environment that has already been used
+    with different settings (C11 / C13: an overlay must lex by its own options)."""
+    o = _OVERLAYS.get(opts_items)
+    if o is None:
+        from jinja2 import Environment
+        if not _BASE:
+            b = Environment(newline_sequence="\r\n", keep_trailing_newline=True, trim_blocks=True)
+            b.from_string("x\n{% if 1 %}\ny{% endif %}\n").render()
+            _BASE.append(b)
+        try:
+            o = _BASE[0].overlay(**{"newline_sequence": "\n", "keep_trailing_newline": False, "trim_blocks": False, **dict(opts_items)})
+        except TypeError:
+            o = False
+        _OVERLAYS[opts_items] = o
+    return o
+
+
 def _real_batch(items):
     """items: [(key, env options as sorted item tuple, source, want_render)]"""
     from jinja2 import TemplateSyntaxError
@@ -242,6 +264,14 @@ def _real_batch(items):
                 rendered = env.from_string(source).render()
             except Exception as e:  # noqa
                 rendered = ["raise", type(e).__name__, str(e)[:200]]
+            ov = _get_overlay(opts)
+            if ov and isinstance(rendered, str):
+                try:
+                    via = ov.from_string(source).render()
+                except Exception as e:  # noqa
+                    via = ["raise", type(e).__name__]
+                if via != rendered:
+                    rendered = ["overlay-of-used-environment-renders", via, "fresh environment renders", rendered]
         out.append((key, toks, err, rendered))
     return out
 
